@@ -42,7 +42,7 @@ func isForwardRangeIndex(idx ssa.Value) bool {
 		return false
 	}
 	phi, ok := bin.X.(*ssa.Phi)
-	if !ok || len(phi.Edges) != 2 {
+	if !ok || len(phi.Edges) < 2 {
 		return false
 	}
 	sawInit, sawSelf := false, false
@@ -51,6 +51,8 @@ func isForwardRangeIndex(idx ssa.Value) bool {
 			sawSelf = true
 		} else if k, ok := intConst(e); ok && k == -1 {
 			sawInit = true
+		} else {
+			return false
 		}
 	}
 	return sawInit && sawSelf
